@@ -116,7 +116,7 @@ var propSpecs = map[string]*propSpec{
 	},
 	"C02": {
 		id:      "C02",
-		streams: []stream{{"wellformed", 12000}, {"prereqs", 4000}, {"targets", 3000}},
+		streams: []stream{{"wellformed", 12000}, {"prereqs", 4000}, {"targets", 3000}, {"wide", 800}},
 		proj:    func(o *WObs) any { return core(o) },
 		nontrivial: func(c *EvalCase) bool {
 			// at least two stages present in the evaluated flag
@@ -135,8 +135,11 @@ var propSpecs = map[string]*propSpec{
 		rule: "wellformed/prereqs/targets streams; non-trivial = flag is on and has at least two of {prerequisites, targets, >1 rules}",
 	},
 	"C03": {
+		units: []unitStream{
+			{"keyaccessor", 15000, func(g *gen, id string) *UnitCase { return g.keyAccessorUnit(id) }},
+		},
 		id:      "C03",
-		streams: []stream{{"targets", 15000}, {"wellformed", 4000}},
+		streams: []stream{{"targets", 15000}, {"wellformed", 4000}, {"wide", 800}},
 		proj: func(o *WObs) any {
 			if o.Result.Reason.Kind == "TARGET_MATCH" {
 				return []any{true, o.Result.Index}
@@ -148,7 +151,7 @@ var propSpecs = map[string]*propSpec{
 	},
 	"C04": {
 		id:      "C04",
-		streams: []stream{{"operators", 40000}, {"wellformed", 4000}},
+		streams: []stream{{"operators", 40000}, {"wellformed", 4000}, {"wide", 800}},
 		proj: func(o *WObs) any {
 			return []any{o.Result.Reason.Kind, o.Result.Reason.ErrorKind, o.Result.Reason.RuleIndex}
 		},
@@ -162,7 +165,7 @@ var propSpecs = map[string]*propSpec{
 	},
 	"C05": {
 		id:      "C05",
-		streams: []stream{{"segments", 15000}, {"segprobe", 8000}, {"bucketdense", 4000}, {"segsplit", 3000}},
+		streams: []stream{{"segments", 15000}, {"segprobe", 8000}, {"bucketdense", 4000}, {"segsplit", 3000}, {"wide", 800}},
 		proj: func(o *WObs) any {
 			return []any{o.Result.Reason.Kind, o.Result.Reason.ErrorKind, o.Result.Reason.RuleIndex, o.SegLookups}
 		},
@@ -190,7 +193,7 @@ var propSpecs = map[string]*propSpec{
 	},
 	"C07": {
 		id:      "C07",
-		streams: []stream{{"bucketsplit", 10000}, {"rollouts", 6000}, {"bucketdense", 3000}, {"segsplit", 3000}},
+		streams: []stream{{"bucketsplit", 10000}, {"rollouts", 6000}, {"bucketdense", 3000}, {"segsplit", 3000}, {"wide", 800}},
 		proj:    func(o *WObs) any { return []any{o.Result.Index, o.Result.Reason.Kind, o.Result.Reason.ErrorKind} },
 		nontrivial: func(c *EvalCase) bool {
 			return hasRollout(&c.Flag)
@@ -199,7 +202,7 @@ var propSpecs = map[string]*propSpec{
 	},
 	"C08": {
 		id:      "C08",
-		streams: []stream{{"rollouts", 12000}, {"wellformed", 4000}, {"prereqs", 3000}},
+		streams: []stream{{"rollouts", 12000}, {"wellformed", 4000}, {"prereqs", 3000}, {"bucketsplit", 3000}},
 		proj:    expBits,
 		nontrivial: func(c *EvalCase) bool {
 			for _, f := range allFlags(c) {
@@ -218,7 +221,7 @@ var propSpecs = map[string]*propSpec{
 	},
 	"C09": {
 		id:      "C09",
-		streams: []stream{{"prereqs", 12000}, {"graphs", 2000}, {"malformed", 3000}},
+		streams: []stream{{"prereqs", 12000}, {"graphs", 2000}, {"malformed", 3000}, {"wide", 800}},
 		proj:    func(o *WObs) any { return []any{core(o), o.Events, o.FlagLookups} },
 		goPred: func(c *EvalCase, out *evalOutcome) string {
 			if !c.Go.EventsOK {
